@@ -468,10 +468,28 @@ def _f_match_walrus_subject(c):
 
 
 def _f_number_keyword(c):
-    tk = c.toks
-    for a, b in zip(tk, tk[1:]):
-        if a.type == tokenize.NUMBER and b.type == tokenize.NAME and b.string in ("or", "and") and a.end == b.start:
-            return True
+    # `and` / `or` touching a neighbouring token: 1or 2, (a)or b, a or(b), a or-b
+    tk = [t for t in c.toks if t.type not in (tokenize.NL, tokenize.COMMENT)]
+    for i, t in enumerate(tk):
+        if t.type == tokenize.NAME and t.string in ("or", "and"):
+            if i > 0 and tk[i - 1].end == t.start:
+                return True
+            if i + 1 < len(tk) and tk[i + 1].start == t.end and tk[i + 1].type not in (tokenize.NEWLINE, tokenize.ENDMARKER):
+                return True
+    return False
+
+
+def _f_fs_multiline_single(c):
+    # PEP 701: a single-quoted f-string whose replacement field spans lines
+    stack = []
+    for t in c.toks:
+        if t.type == getattr(tokenize, "FSTRING_START", -1):
+            stack.append(t)
+        elif t.type == getattr(tokenize, "FSTRING_END", -1) and stack:
+            s0 = stack.pop()
+            q = s0.string
+            if not (q.endswith('"""') or q.endswith("'''")) and s0.start[0] != t.end[0]:
+                return True
     return False
 
 
@@ -481,7 +499,10 @@ def _f_match_call_stmt(c):
     prev = None
     for a, b in zip(tk, tk[1:]):
         at_start = prev is None or prev.type == tokenize.NEWLINE or (prev.type == tokenize.OP and prev.string in (";", ":"))
-        if at_start and a.type == tokenize.NAME and a.string == "match" and b.type == tokenize.OP and b.string in ("(", "["):
+        starts_expr = (b.type == tokenize.OP and b.string in ("(", "[", "{", "+", "-", "*", "@", "~", "...")) or \
+            (b.type == tokenize.NAME and b.string in ("not", "lambda", "await")) or \
+            b.type in (tokenize.NUMBER, tokenize.STRING, getattr(tokenize, "FSTRING_START", -1))
+        if at_start and a.type == tokenize.NAME and a.string == "match" and starts_expr:
             # is it really a call/subscript statement, not a match statement?
             for n in c.nodes(ast.Match):
                 if c.charpos(n.lineno, n.col_offset) == a.start:
@@ -489,6 +510,20 @@ def _f_match_call_stmt(c):
             else:
                 return True
         prev = a
+    return False
+
+
+def _f_walrus_in_set(c):
+    for n in c.nodes(ast.NamedExpr):
+        if _parenthesised(c, n):
+            continue
+        p = c.parents.get(n)
+        if isinstance(p, ast.Set):
+            return True
+        if isinstance(p, ast.SetComp) and p.elt is n:
+            return True
+        if isinstance(p, ast.GeneratorExp) and p.elt is n and isinstance(c.parents.get(p), ast.Call):
+            return True
     return False
 
 
@@ -559,9 +594,13 @@ FINDINGS = {
     "C01-F32": (("reject",), r"code: :=", _f_match_walrus_subject, "match w := x:\n    case y: pass\n",
                 "unparenthesised walrus as match subject is rejected"),
     "C01-F33": (("reject",), r"code: (or|and)", _f_number_keyword, "1or 2\n",
-                "a numeric literal directly followed by the keyword or/and (no blank) is rejected"),
+                "the keywords and/or written without a blank on either side (1or 2, (a)or b, a or(b), a or-b) are rejected"),
     "C01-F34": (("reject",), r"unexpected newline|code: ", _f_match_call_stmt, "match(x)\n",
-                "a statement that starts with a call or subscript of a name `match` (soft keyword used as identifier) is rejected"),
+                "a statement that starts with the name `match` (soft keyword used as identifier) followed by a token that can start an expression - match(x), match[0], match -1, match @ d, match not in x - is rejected"),
+    "C01-F35": (("reject",), r"", _f_fs_multiline_single, "x = f\"{\n1}\"\n",
+                "a single-quoted f-string whose replacement field spans several lines (PEP 701) is rejected when it does not start the line"),
+    "C01-F36": (("reject",), r"code: (:=|for)", _f_walrus_in_set, "{a := 1}\n",
+                "unparenthesised walrus as element of a set display / set comprehension / sole generator argument is rejected"),
 }
 
 
